@@ -78,6 +78,13 @@ def _labelled_expr(ctx: Ctx, fn: FunctionInfo, e: ast.AST, seen: set, depth: int
                 c.fullname.endswith("MetaHandlerGenerator") for c in ctx.res.receiver_classes(fn, e.func.value)):
             return True, ""  # refinement-specific mutation of a field value: the enclosing node's fold visits what it returns
         t = ctx.res.resolve(fn, e)
+        if not (t.kind == "repo" and t.targets) and isinstance(e.func, ast.Name):
+            # a local alias made with functools.partial(f, ...): calling it is calling f
+            pdefs = [a for a in walk_local(fn.node) if isinstance(a, ast.Assign) and len(a.targets) == 1 and isinstance(a.targets[0], ast.Name)
+                     and a.targets[0].id == e.func.id and isinstance(a.value, ast.Call) and call_name(a.value) == "partial" and a.value.args]
+            if len(pdefs) == 1:
+                inner = ast.copy_location(ast.Call(func=pdefs[0].value.args[0], args=[], keywords=[]), pdefs[0].value)
+                t = ctx.res.resolve(fn, inner)
         if t.kind == "repo" and t.targets:
             for g in t.targets:
                 ok, why = labelled_result(ctx, g, seen, depth + 1)
@@ -300,12 +307,17 @@ def run(ctx: Ctx) -> None:
     def is_meta(fn_: FunctionInfo, e: ast.AST) -> bool:
         return isinstance(e, ast.Attribute) and e.attr in META
 
+    def reads_meta(x: ast.AST) -> bool:
+        # o.gengy_types_this_way, getattr(o, "gengy_types_this_way", ...), attrgetter("gengy_types_this_way")
+        return (isinstance(x, ast.Attribute) and x.attr in META) or (
+            isinstance(x, ast.Call) and call_name(x) in ("getattr", "attrgetter", "hasattr") and any(isinstance(a, ast.Constant) and a.value in META for a in x.args))
+
     ma2 = MutationAnalysis(prog, res, depth=3)
     nmeta = 0
     for f in sorted(prog.functions.values(), key=lambda x: x.fullname):
         if f is rl or f.parent is not None:
             continue
-        if not any(isinstance(x, ast.Attribute) and x.attr in META for x in walk_local(f.node, include_nested=True)) and not any(
+        if not any(reads_meta(x) for x in walk_local(f.node, include_nested=True)) and not any(
                 isinstance(c, ast.Call) and call_name(c) == "find_in_tree" for c in walk_local(f.node)):
             continue
         nmeta += 1
